@@ -56,6 +56,15 @@ class RIHooks(Hooks):
     def loop_label(self, node, it_text, it):
         return f"each {ast.unparse(node.target)} in {ast.unparse(node.iter)}"
 
+    aug_inplace = True  # the accumulator keeps its name after a recognised `+=`
+
+    def augassign(self, ttext, op, vt, st, it):
+        # `result += X` is `result.extend(X)`
+        if op == "Add":
+            m = re.fullmatch(r"global_results\[PrecedenceType\.(\w+)\]", ast.unparse(st.value))
+            return ("extend", m.group(1) if m else vt)
+        return None
+
     def event(self, text, call, it):
         f = ast.unparse(call.func)
         if f == "reuse_info_of_file":
@@ -226,7 +235,7 @@ def rule_single_toml(ck: Check, repo: Repo) -> None:
     r.instance("selection", {"iter": it, "returns_first_match": first_match})
     if not first_match:
         r.violation(q, "selection loop shape", "must return the first element of the iteration that matches", repo.loc(lp))
-    if it != "reversed(self.annotations)":
+    if it not in ("reversed(self.annotations)", "self.annotations[::-1]"):
         r.violation(q, f"selection iterates {it}", "the LAST matching table must win: iterate reversed(self.annotations)"
                     " and return the first match", repo.loc(lp))
     q2 = f"{GL}.ReuseTOML.reuse_info_of"
